@@ -51,6 +51,9 @@ type c12Case struct {
 	Assigned bool        `json:"assigned"`
 	CType    string      `json:"ctype"`
 	Raw      []byte      `json:"raw,omitempty"` // fuzz: appended verbatim
+	// Timeout: the job's scrape_timeout ("" = 10s).  The target answers at once, so any positive timeout is enough;
+	// the transport refuses a request whose deadline has already passed, like a real one
+	Timeout string `json:"timeout,omitempty"`
 }
 
 func (c *c12Case) payload() []byte {
@@ -189,7 +192,7 @@ func gz(b []byte) []byte {
 }
 
 func recC12() *vkit.Recorder {
-	r := vkit.Rec("C12", "exploration", "rapid-generated exposition payloads (samples, dropped samples, comments, blank, malformed and long lines, multi-byte runes, LF/CRLF, with/without final newline; thorough: up to several MiB and a native fuzz target over raw bytes) x read-chunk patterns (incl. 1-byte chunks) x gzip (one or several members)/identity x short-write patterns on the Prometheus side x target assigned or not; plus interleaved scrapes (the harness suspends one scrape inside a Write while others, possibly after failed gzip scrapes, run to completion on one P); oracle: bytes recorded by the ResponseWriter == payload before compression, Content-Type == the target's, status 200; non-trivial = payload larger than one 64 KiB parser block, or >1 read chunk, or gzip, or a short write occurred; distinct = digest of the case")
+	r := vkit.Rec("C12", "exploration", "rapid-generated exposition payloads (samples, dropped samples, comments, blank, malformed and long lines, multi-byte runes, LF/CRLF, with/without final newline; thorough: up to several MiB and a native fuzz target over raw bytes) x read-chunk patterns (incl. 1-byte chunks) x gzip (one or several members)/identity x short-write patterns on the Prometheus side x target assigned or not; sub-second and fractional scrape timeouts (the transport refuses requests whose deadline has passed); unit TestC12Listener: every request sent through Proxy.Run's TCP listener as a forward proxy and into ServeHTTP, paths not in shortest form and query strings, both answers and the URL the target is asked for compared; plus interleaved scrapes (the harness suspends one scrape inside a Write while others, possibly after failed gzip scrapes, run to completion on one P); oracle: bytes recorded by the ResponseWriter == payload before compression, Content-Type == the target's, status 200; non-trivial = payload larger than one 64 KiB parser block, or >1 read chunk, or gzip, or a short write occurred; distinct = digest of the case")
 	r.Assume("every line is shorter than the statistics parser's 256 KiB line limit (stated precondition of the property); short writes return n < len(p) with a nil error and n >= 1")
 	return r
 }
@@ -200,6 +203,9 @@ func runC12(rec *vkit.Recorder, c *c12Case) []vkit.Violation {
 	pl := c.payload()
 	chunks := 0
 	rt := rtFunc(func(r *http.Request) (*http.Response, error) {
+		if err := r.Context().Err(); err != nil {
+			return nil, err
+		}
 		body := pl
 		h := http.Header{}
 		if c.CType != "" {
@@ -213,7 +219,11 @@ func runC12(rec *vkit.Recorder, c *c12Case) []vkit.Violation {
 		chunks = len(body)
 		return &http.Response{StatusCode: 200, Status: "200 OK", Body: cr, Header: h, Request: r}, nil
 	})
-	n, err := newNode(dir, c12Config, rt)
+	conf := c12Config
+	if c.Timeout != "" {
+		conf = strings.Replace(conf, "scrape_timeout: 10s", "scrape_timeout: "+c.Timeout, 1)
+	}
+	n, err := newNode(dir, conf, rt)
 	if err != nil {
 		return []vkit.Violation{{Key: "C12/harness", Msg: err.Error()}}
 	}
@@ -260,6 +270,9 @@ func runC12(rec *vkit.Recorder, c *c12Case) []vkit.Violation {
 	}
 	nt := len(pl) > 64*1024 || multi || c.Gzip || w.short > 0
 	cls := []string{tag}
+	if c.Timeout != "" {
+		cls = append(cls, "scrape-timeout/"+c.Timeout)
+	}
 	if len(pl) > 64*1024 {
 		cls = append(cls, "larger-than-parser-block")
 	}
@@ -342,6 +355,7 @@ func genC12(t *rapid.T) *c12Case {
 	}
 	c.Assigned = rapid.IntRange(0, 3).Draw(t, "assigned") != 0
 	c.CType = rapid.SampledFrom([]string{"text/plain; version=0.0.4; charset=utf-8", "application/openmetrics-text; version=0.0.1; charset=utf-8", "text/plain", ""}).Draw(t, "ctype")
+	c.Timeout = rapid.SampledFrom([]string{"", "", "900ms", "1500ms", "1s", "14s"}).Draw(t, "timeout")
 	return c
 }
 
@@ -375,6 +389,7 @@ func TestReplayC12(t *testing.T) {
 	if len(fails) > 0 {
 		t.Fatalf("%s", strings.Join(fails, "\n"))
 	}
+	replayListener(t)
 }
 
 // FuzzC12 drives the same oracle from raw bytes (thorough tier only, native coverage-guided fuzzing).
